@@ -696,7 +696,7 @@ def run(chk):
     if acc_set:
         largest = acc_set[-1][1]
         need_cont = -(-(largest - 57) // 59) if largest > 57 else 0
-        chk.ob("R6 size refusal", "R6|new|largest-accepted-within-protocol", len(acc_set) == 1 and largest <= PROTO_MAX and largest <= 65535 and need_cont <= 128 and largest == 57 + 128 * 59 - 1, where(new),
+        chk.ob("R6 size refusal", "R6|new|largest-accepted-within-protocol", len(acc_set) == 1 and largest <= PROTO_MAX and largest <= 65535 and need_cont <= 128 and largest >= 57 + 128 * 59 - 1, where(new),
                "largest accepted payload %d (protocol maximum %d, length field maximum 65535), needing %d continuation packets of 59 bytes after the first 57" % (largest, PROTO_MAX, need_cont))
     chk.floor("R1", 3)
     chk.floor("R2", 2)
